@@ -171,6 +171,70 @@ class ConfigIndependence(Contract):
         return out
 
 
+def _config_native_search(case, params, ob):
+    """real library: two small problems (feasible with an objective / infeasible) solved under the case's
+    configuration; a returned schedule must be valid for the problem and verdict and optimum must be those of the
+    default configuration"""
+    import io, contextlib, warnings
+    from psvc import runner
+
+    ps = runner.native_ps()
+
+    def run(kw, infeasible, obj):
+        with contextlib.redirect_stdout(io.StringIO()), warnings.catch_warnings():
+            warnings.simplefilter("ignore")
+            pb = ps.SchedulingProblem(name="pb", horizon=9)
+            w = ps.Worker(name="w")
+            t1 = ps.FixedDurationTask(name="t1", duration=3)
+            t2 = ps.FixedDurationTask(name="t2", duration=2)
+            t3 = ps.VariableDurationTask(name="t3", min_duration=1, max_duration=3)
+            for t in (t1, t2, t3):
+                t.add_required_resource(w)
+            ps.TaskPrecedence(task_before=t1, task_after=t2, offset=1)
+            ps.TaskStartAfter(task=t1, value=1)
+            if infeasible:
+                ps.TaskEndBefore(task=t2, value=5)
+            if obj:
+                ps.ObjectiveMinimizeMakespan()
+            try:
+                sol = ps.SchedulingSolver(problem=pb, **kw).solve()
+            finally:
+                runner.reset_z3_options()
+        if not sol:
+            return False, None, None
+        T_ = sol.tasks
+        iv = sorted((T_[n].start, T_[n].end) for n in T_)
+        valid = (
+            all(T_[n].start >= 0 and T_[n].end <= sol.horizon and T_[n].end - T_[n].start == T_[n].duration for n in T_)
+            and sol.horizon <= 9
+            and T_["t1"].duration == 3
+            and T_["t2"].duration == 2
+            and 1 <= T_["t3"].duration <= 3
+            and T_["t1"].end + 1 <= T_["t2"].start
+            and T_["t1"].start >= 1
+            and all(a[1] <= b[0] for a, b in zip(iv, iv[1:]))
+        )
+        return True, valid, (sol.horizon if obj else None)
+
+    kw = dict(debug=case["debug"], parallel=case["parallel"], random_values=case["rnd"], optimizer=case["optimizer"])
+    if case["logics"]:
+        kw["logics"] = case["logics"]
+    obs = {}
+    for infeasible in (False, True):
+        try:
+            got = run(kw, infeasible, case["obj"])
+            ref = run({}, infeasible, case["obj"])
+        except Exception as e:  # noqa
+            return {"confirmed": True, "observation": {"configuration": kw, "infeasible_variant": infeasible, "exception": f"{type(e).__name__}: {e}"}}
+        obs["infeasible" if infeasible else "feasible"] = {"configured": got, "default": ref}
+        if got[0] != ref[0] or (got[0] and not got[1]) or (got[0] and got[2] != ref[2]):
+            return {"confirmed": True, "observation": dict(obs, configuration=kw, meaning="(solution returned, valid, optimal horizon)")}
+    return {"confirmed": False, "observation": dict(obs, configuration=kw)}
+
+
+ConfigIndependence.native_search = staticmethod(_config_native_search)
+
+
 # ------------------------------------------------------------------------------ C19 infeasibility diagnosis
 @register
 class DebugCore(Contract):
@@ -181,10 +245,14 @@ class DebugCore(Contract):
     bounded = "problems with 2 tasks and 2..3 user constraints; unsat cores: every singleton, every pair and the whole set of tracked assertions"
 
     def cases(self, tier):
-        return [dict(extra=e, res=r) for e in (0, 1) for r in (False, True)]
+        return [dict(extra=e, res=r) for e in (0, 1) for r in (False, True)] + [dict(extra=1, res=False, opt=True)]
 
     def scenario(self, ps, P, case):
         pb, t1, t2 = small_problem(ps, P, optional=False, resources=case["res"])
+        if case.get("opt"):
+            # an optional constraint that a ForceApplyNOptionalConstraints makes compulsory: it can take part in a conflict
+            oc = ps.TaskStartAt(task=t2, value=P.int("o"), optional=True, name="maybe")
+            ps.ForceApplyNOptionalConstraints(list_of_optional_constraints=[oc], nb_constraints_to_apply=1, name="force")
         if case["extra"]:
             # a constraint used as operand of a connective (it is not handed to the solver on its own), declared first
             ps.Not(constraint=ps.TaskStartAt(task=t2, value=P.int("n")))
@@ -292,11 +360,32 @@ def _debug_native_search(case, params, ob):
                 mk_()
         return pb
 
+    if case.get("opt"):
+        # an optional constraint made compulsory takes part in the conflict: it must be named
+        def build(only=None):  # noqa: F811
+            pb = ps.SchedulingProblem(name="pb", horizon=12)
+            t1 = ps.FixedDurationTask(name="t1", duration=3)
+            made = {}
+            if only is None or "maybe" in only:
+                made["maybe"] = ps.TaskStartAt(name="maybe", task=t1, value=5, optional=True)
+            if (only is None or "force" in only) and "maybe" in made:
+                ps.ForceApplyNOptionalConstraints(name="force", list_of_optional_constraints=[made["maybe"]], nb_constraints_to_apply=1)
+            if only is None or "ends_early" in only:
+                ps.TaskEndBefore(name="ends_early", task=t1, value=6)
+            return pb
+
     buf = io.StringIO()
     with contextlib.redirect_stdout(buf):
         res = ps.SchedulingSolver(problem=build(), debug=True).solve()
     text = buf.getvalue()
-    blamed = set(re.findall(r"name='([a-z_]+)'", text.split("Unsatisfied constraints")[-1])) & {"ends_early", "w_unavailable", "irrelevant"} if "Unsatisfied constraints" in text else set()
+    # one printed constraint per "->" segment; its own name comes first in the repr (nested constraints follow)
+    blamed = set()
+    if "Unsatisfied constraints" in text:
+        for seg in text.split("Unsatisfied constraints")[-1].split("\t -> ")[1:]:
+            m_ = re.search(r"name='([a-z_]+)'", seg)
+            if m_:
+                blamed.add(m_.group(1))
+        blamed &= {"ends_early", "w_unavailable", "irrelevant", "maybe", "force"}
     with contextlib.redirect_stdout(io.StringIO()):
         alone = ps.SchedulingSolver(problem=build(only=blamed)).solve()
     bad = res is False and bool(alone)
@@ -469,8 +558,8 @@ class AnotherSolutionNoCurrent(Contract):
 @register
 class CallSequences(Contract):
     target = "solver.SchedulingSolver.solve"
-    inlines = ("solver.SchedulingSolver.initialize", "solver.SchedulingSolver.export_to_smt2", "solver.SchedulingSolver.check_sat")
-    props = ("C13", "C16")
+    inlines = ("solver.SchedulingSolver.initialize", "solver.SchedulingSolver.export_to_smt2", "solver.SchedulingSolver.check_sat", "solver.SchedulingSolver.find_another_solution", "solver.SchedulingSolver.append_z3_assertion")
+    props = ("C13", "C16", "C12")
     diff = "eval"
     bounded = "sequences of at most 3 public calls on one solver object; problems with 2 tasks"
 
@@ -482,6 +571,11 @@ class CallSequences(Contract):
                 if obj == "none" and optimizer == "optimize":
                     continue
                 seqs = [("solve", "solve"), ("initialize", "solve"), ("export", "solve"), ("solve", "export", "solve"), ("initialize", "initialize", "solve"), ("second_solver",)]
+                # what earlier calls stacked on purpose (a user assertion, the clause that excludes the current
+                # solution) must survive the later calls
+                seqs += [("initialize", "assert", "export", "solve"), ("initialize", "assert", "solve", "export")]
+                if obj == "none":
+                    seqs += [("solve", "another", "export", "another"), ("solve", "another", "solve")]
                 if tier == "thorough":
                     seqs += [("solve", "solve", "solve"), ("export", "export", "solve", "solve"), ("solve", "initialize", "solve"), ("second_solver", "solve", "export")]
                 for seq in seqs:
@@ -507,11 +601,26 @@ class CallSequences(Contract):
         reg_before = {k: list(getattr(pb, k)) for k in ("tasks", "workers", "constraints", "indicators", "objectives")}
         results = []
         stacks = []
+        extras = []  # what the calls so far stacked on purpose, per call
+        extra = []
         first_solver_stack = None
         for call in case["seq"]:
+            before = list(asserted(solver)) if solver._solver is not None else []
             if call == "initialize":
                 solver.initialize()
                 results.append(None)
+            elif call == "assert":
+                f = t1._start + 1 <= t2._end
+                solver.append_z3_assertion(f)
+                extra = extra + [f]
+                results.append(None)
+            elif call == "another":
+                if results and results[-1] is False:
+                    break
+                r = solver.find_another_solution()
+                after = list(asserted(solver))
+                extra = extra + [g for g in after if not any(g.eq(h) for h in before)]
+                results.append(r)
             elif call == "export":
                 solver.export_to_smt2("/dev/null")
                 results.append(None)
@@ -525,9 +634,10 @@ class CallSequences(Contract):
             else:
                 results.append(solver.solve())
             stacks.append(list(asserted(solver)) if solver._solver is not None else None)
+            extras.append(list(extra))
             if P.symbolic and call == "solve" and case["optimizer"] == "incremental" and case["obj"] != "none":
                 break
-        return dict(pb=pb, solver=solver, results=results, stacks=stacks, reg_before=reg_before, first_solver_stack=first_solver_stack)
+        return dict(pb=pb, solver=solver, results=results, stacks=stacks, extras=extras, reg_before=reg_before, first_solver_stack=first_solver_stack)
 
     def clauses(self, P, ctx, case):
         out = []
@@ -544,7 +654,9 @@ class CallSequences(Contract):
         for i, s in enumerate(stacks):
             if s is None:
                 continue
-            out.append(Clause(f"invariant[after call {i+1} ({case['seq'][i]}): the stack is the problem's constraint system]", And(*s) == And(*first), props=("C13",), kind="invariant", bounded=self.bounded))
+            ex = ctx["extras"][i]
+            # the first stack of a sequence that starts with initialize / assert already holds nothing extra
+            out.append(Clause(f"invariant[after call {i+1} ({case['seq'][i]}): the stack is the problem's constraint system" + (" and what earlier calls added on purpose]" if ex else "]"), And(*s) == And(*first, *ex), props=("C13", "C12") if ex else ("C13",), kind="invariant", bounded=self.bounded))
         out.append(Clause("invariant[no scope left open]", sym._term(G.pushed_count()) == 0, props=("C13",), kind="invariant", bounded=self.bounded))
         if case["obj"] != "multi" or case["optimizer"] == "optimize":
             reg_after = {k: list(getattr(pb, k)) for k in ctx["reg_before"]}
@@ -660,6 +772,45 @@ def _callseq_native_search(case, params, ob):
         if case["optimizer"] == "optimize":
             kw["optimize_priority"] = "lex"
         verdicts = []
+        if "assert" in case["seq"] or "another" in case["seq"]:
+            # the case's own call sequence on the real library: a user assertion must hold in every schedule returned
+            # afterwards; a schedule excluded by find_another_solution must not come back
+            try:
+                solver = ps.SchedulingSolver(problem=pb, **kw)
+                asserted_f, seen, obs = False, [], []
+                for call in case["seq"] + ("another", "another") * ("another" in case["seq"]):
+                    r = None
+                    if call == "initialize":
+                        solver.initialize()
+                    elif call == "export":
+                        import tempfile, os
+
+                        d = tempfile.mkdtemp(prefix="psvc-seq-")
+                        try:
+                            solver.export_to_smt2(os.path.join(d, "p.smt2"))
+                        finally:
+                            for f in os.listdir(d):
+                                os.unlink(os.path.join(d, f))
+                            os.rmdir(d)
+                    elif call == "assert":
+                        solver.append_z3_assertion(t1._start + 1 <= t2._end)  # excludes t2 left out (parked in the past) and t2 before t1
+                        asserted_f = True
+                    elif call == "solve":
+                        r = solver.solve()
+                    elif call == "another":
+                        r = solver.find_another_solution()
+                    if r:
+                        sig = tuple((n, ts.start, ts.end, ts.scheduled) for n, ts in r.tasks.items())
+                        obs.append((call, sig))
+                        if asserted_f and not (r.tasks["t1"].start + 1 <= r.tasks["t2"].end):
+                            return {"confirmed": True, "observation": {"sequence": list(case["seq"]), "returned": obs, "violated": "the assertion added with append_z3_assertion (t1.start + 1 <= t2.end) does not hold in the schedule returned afterwards"}}
+                        if call == "another" and sig in seen:
+                            return {"confirmed": True, "observation": {"sequence": list(case["seq"]), "returned": obs, "violated": "find_another_solution returned a schedule that had been excluded before"}}
+                        if call in ("solve", "another"):
+                            seen.append(sig)
+                return {"confirmed": False, "observation": {"sequence": list(case["seq"]), "returned": obs}}
+            except Exception as e:  # noqa
+                return {"confirmed": True, "observation": {"sequence": list(case["seq"]), "exception": f"{type(e).__name__}: {e}"}}
         try:
             s1 = ps.SchedulingSolver(problem=pb, **kw)
             verdicts.append(bool(s1.solve()))
